@@ -86,8 +86,9 @@ def canaries(trace, prop):
     return out
 
 
-def validate(rep, prop, outs, label):
-    """Trace-validate conversion outputs; record verdicts. Returns list of rejected (out, clause)."""
+def validate(rep, prop, outs, label, src="gen"):
+    """Trace-validate conversion outputs; record verdicts. Returns list of rejected (out, clause).
+    src "ok": the forms come from the generator of accepted forms (a refusal or an internal exception is then a violation)"""
     sub = []
     skipped = {"crash": 0, "out_of_fragment": 0}
     for o in outs:
@@ -96,12 +97,12 @@ def validate(rep, prop, outs, label):
         if not o["frag"]:
             skipped["out_of_fragment"] += 1
             continue
-        if o["res"]["status"] == "crash" and prop != "C17":
-            skipped["crash"] += 1
+        if o["res"]["status"] == "crash" and prop != "C17" and not (prop in ("C03", "C04", "C05", "C10") or src == "ok"):
+            skipped["crash"] += 1      # (collision / error alphabets: an internal exception there is C17's subject)
             continue
         sub.append(o)
     traces = [o["trace"] for o in sub]
-    acc, info = tlc.validate_traces(TRACE_MOD, TRACE_CFG, traces, shards=12, env={"PROP": prop}, tag=f"tr{prop}")
+    acc, info = tlc.validate_traces(TRACE_MOD, TRACE_CFG, traces, shards=12, env={"PROP": prop, "VERIF_SRC": src}, tag=f"tr{prop}")
     rep.traces_validated += len(acc)
     rep.extra.setdefault("trace_runs", []).append(
         {"source": label, "traces": len(traces), "accepted": len(acc), "tlc_states": info["distinct"], "wall_s": round(info["wall"], 1), **skipped}
